@@ -8,6 +8,7 @@ CONSTANTS
   MaxHard = 1
   MaxPop = 1
   PopClasses = 0
+  AttrClasses = 0
   B1 = 0
   B2 = 0
   B3 = 0
@@ -18,6 +19,7 @@ CONSTANTS
   BFn = 4
   EmitAllUpTo = 0
   Sel = 120
+  CondSel = 6
   KeepGoing = TRUE
 INVARIANT Inv
 CHECK_DEADLOCK FALSE
